@@ -4,7 +4,7 @@
 
 use crate::spec::{AnimSpec, TlSpec};
 use mina::prelude::*;
-use mina::{MergedTimeline, TimelineBuilder, TimelineOrBuilder};
+use mina::{MergedTimeline, TimelineOrBuilder};
 use std::fmt::Debug;
 
 #[derive(Clone, Copy, Debug, PartialEq, Eq, Hash, PartialOrd, Ord)]
